@@ -1,4 +1,4 @@
-\* generation: every transition over the scripted tree T3 with one observer and one restart, printed once
+\* generation: every transition over tree T3, one observer, one restart, printed once (all properties checked on the way)
 SPECIFICATION Spec
 CONSTANTS
   N = 3
@@ -9,7 +9,9 @@ CONSTANTS
   MaxRestarts = 1
   ByzMode = "branch"
   ByzRanges <- R123
-  Fixes <- NoFix
+  Fixes <- AllFixes
 VIEW view
 ACTION_CONSTRAINT GenLog
+INVARIANTS TypeOK LibOnMain ConfirmsOnMain Agreement HonestConfirms
+PROPERTIES LibMonotone Final NoForkBelowLib LibQuorum RestoreEqualsRecompute
 CHECK_DEADLOCK FALSE
